@@ -49,9 +49,10 @@ CLAIMED["C07"] = dict(
     text="Bounded. Harness contracts on the macro-generated trait methods <int as FromParam>::from_param for all ten integer types: for EVERY ASCII string of each length up to "
          "digits(MAX)+2 the result is Ok(v) only if the whole string is an in-range integer literal of that type with value v (independent reference grammar), every "
          "'-'?digit+ in-range literal is accepted, no overflow or panic (quick: 8/16-bit types, thorough: all). String/Cow/&str params pass the decoded segment through "
-         "(&str refuses decoded input); Option<FR> is None only when the inner extractor reports absence and propagates inner errors.",
-    design_ref="DESIGN.md §4 C07",
-    note="Bounded by string length. Not under contract: the macro-generated IntoHandler impls (handler runs only if every extraction is Ok), the FromBody media-type gate, "
+         "(&str refuses decoded input); Option<FR> is None only when the inner extractor reports absence and propagates inner errors. The body media-type gate (<B: FromBody> as FromRequest) through a probe extractor: the "
+         "decoder runs, on exactly the payload bytes, iff the Content-Type (0..6 symbolic printable bytes, or absent) starts with the extractor's WHOLE media type and a payload is present; otherwise the item is absent.",
+    design_ref="DESIGN.md §4 C07, §9.7",
+    note="Bounded by string length. Not under contract: the macro-generated IntoHandler impls (handler runs only if every extraction is Ok), "
          "JSON (serde_json); decoders are C08-C10. A genuine defect found by these obligations was repaired (fix: a0d3612).",
     technique="Kani harness contracts over all strings of bounded length against a reference grammar",
 )
@@ -62,8 +63,9 @@ CLAIMED["C08"] = dict(
          "seq/tuple, ignored, enum variant, map key/value steps) is called through serde's own primitive impls on an ARBITRARY cursor (every input of each length 0..4, both parsing "
          "sides): it returns Ok or Err with CBMC's generated obligations discharged (no panic, no unwrap on Err/None, no overflow, every from_raw_parts inside the input), the cursor "
          "stays a suffix of the input, yielded strings are valid UTF-8 (independent validator) and borrowed strings lie inside the input. Cookie valid::name / valid::value for every "
-         "input up to 5 bytes plus the escape template %XY.",
-    design_ref="DESIGN.md §4 C08",
+         "input up to 5 bytes plus the escape template %XY. ohkami_lib's own percent_decode / percent_decode_utf8 wrappers (and the real percent-encoding crate under them) agree with the "
+         "reference RFC 3986 decoder on 16 enumerated concrete inputs (the assumed contract used by the other harnesses, checked).",
+    design_ref="DESIGN.md §4 C08, §9.7",
     note="Bounded by input length (<= 4-5 bytes). percent-encoding crate replaced by an assumed contract (reference decoder); serde visitors executed, not specified; floats excluded; "
          "derived Deserialize glue, multipart parser, Set-Cookie parsing and QueryParams::iter are not under contract in this check (multipart: C10). "
          "Two genuine defects found by these obligations were repaired (fix: 019e014, c84dc34).",
@@ -109,7 +111,7 @@ CLAIMED["C11"] = dict(
          "(names any RFC 6265 token byte, values any cookie-octet except `%`, `=` included): every name and value decodes to what was sent, in order, double quotes stripped, nothing after the last "
          "cookie; and `n=%XY` for all 256 escapes decodes to the byte when it is ASCII and is an error otherwise. Cookie name/value validators for all short inputs are under contract in C08. Response side: SetCookieBuilder::build followed by SetCookie::from_raw on 7 enumerated CONCRETE values (plain, a literal percent escape `50%2Foff`, space and semicolon, double quotes, non-ASCII, base64 padding, empty) with Path, HttpOnly and SameSite=Lax: the emitted text is a single line `name=value *(\"; \" directive)` whose value consists of RFC 6265 cookie-octets only, and it parses back to the value given to the builder and exactly the directives given.",
     design_ref="DESIGN.md §4 C11, §8.2",
-    note="NOT under a discharged contract: decoding into serde-derived structs (the derive glue does not get through CBMC), the request's cookie iterator util::iter_cookies; on the response side only enumerated concrete values are decided (the symbolic value shapes of harness/C11/setcookie.rs need more than 20 min each and are not registered), the byte_reader crate is executed, not specified. percent-encoding and core::str::from_utf8 replaced by assumed contracts. A genuine defect found by these "
+    note="NOT under a discharged contract: decoding into serde-derived structs (the derive glue does not get through CBMC); on the response side only enumerated concrete values are decided (the symbolic value shapes of harness/C11/setcookie.rs need more than 20 min each and are not registered), the byte_reader crate is executed, not specified. The request's cookie iterator util::iter_cookies is run on enumerated concrete jars only (plain cookies, an empty value, a value containing `=`); that it yields quoted / percent-encoded values raw is the open finding KF-C11-cookie-iterator-raw-values. A second genuine defect was repaired (fix: 22979b8, iterator dropped cookies whose value contains `=`). percent-encoding and core::str::from_utf8 replaced by assumed contracts. A genuine defect found by these "
          "obligations was repaired (fix: 730e713, `=` inside a cookie value).",
     technique="Kani harness contracts over jar templates with symbolic contents (round trip against the identity encoder)",
 )
@@ -119,9 +121,10 @@ CLAIMED["C09"] = dict(
     text="Bounded, method level. decode(encode(v)) == v through the real URLEncodedSerializer::serialize_* and URLEncodedDeserializer::deserialize_* methods in the value place: both "
          "booleans, Option<bool>, a derived newtype, all 128 ASCII chars (every reserved character; enumerated in 4 chunks), 8 non-ASCII chars of every UTF-8 length, integers of every width at "
          "their boundary values (enumerated concrete values: a symbolic integer through core's Display is out of reach), the empty string, two concrete sequences of booleans (lengths 2 and 3), "
-         "three concrete pairs of strings containing `,` `&` `=` `%`. One open known finding (a sequence whose first element is the empty string loses it).",
+         "three concrete pairs of strings containing `,` `&` `=` `%`; the request's query iterator QueryParams::iter (with the real percent-decoding wrapper) on 7 concrete query strings (escapes in keys and values, "
+         "escaped `=`/`&`, empty values, malformed parts skipped). One open known finding (a sequence whose first element is the empty string loses it).",
     design_ref="DESIGN.md §9.2, §9.3",
-    note="NOT under a discharged contract: the struct/map glue of serde-derived impls (field order, unknown extra fields), floats, string maps, QueryParams::iter, symbolic strings of 1-2 bytes, "
+    note="NOT under a discharged contract: the struct/map glue of serde-derived impls (field order, unknown extra fields), floats, string maps, symbolic strings of 1-2 bytes, "
          "symbolic string pairs, symbolic (bool, bool) sequences, unit enums and the `k=v&k=v` text-vs-RFC 3986 harnesses (written, harness/C09, but 8-27 GB / no answer in 15 min each: unregistered). percent-encoding crate and core::str::from_utf8 "
          "replaced by assumed contracts. Two genuine defects found by these obligations were repaired (fix: 7bec830 chars written raw, 41c3ccf sequences never decoded); KF-C09-empty-first-seq-element is open.",
     technique="Kani harness contracts: round trip through the real serializer and deserializer methods per field type (symbolic where CBMC can afford it, otherwise exhaustively enumerated small domains / boundary values)",
@@ -144,7 +147,7 @@ CLAIMED["C14"] = dict(
          "origin (the builder refuses credentials on `*`), the configured exposed headers; an OPTIONS response additionally the configured max-age and the configured or echoed (3 symbolic bytes) request headers, "
          "and the inner 501 of a valid preflight becomes 200 without Content-Type/Content-Length while every other status passes through; a non-OPTIONS response gets none of the preflight-only headers and keeps "
          "status and body declaration. Handler::default_options_with(list): 404 without Access-Control-Request-Method; 501 (valid preflight) iff the requested token (3..7 symbolic printable bytes) is exactly a listed "
-         "method, HEAD when GET is listed, or OPTIONS; otherwise 400; Access-Control-Allow-Methods is exactly the list (+HEAD with GET, +OPTIONS); plus 16 concrete look-alike tokens.",
+         "method, HEAD when GET is listed, or OPTIONS; otherwise 400; Access-Control-Allow-Methods is exactly the list (+HEAD with GET, +OPTIONS); plus 16 concrete tokens (12 look-alikes: substrings of the advertised list, the separator, case and padding variants). The configured max-age takes the values 600, 0, 1 and u32::MAX across the shapes.",
     design_ref="DESIGN.md §9.2",
     note="NOT under contract: WHICH methods are registered for a path (the list is assembled by router/base.rs at registration time through HashMap and leaked closures and handed to default_options_with), "
          "that the CORS fang wraps every response of its scope including 404s (fang scope, C04), Access-Control-Allow-Methods configured on the CORS value itself (the builder method is commented out upstream). "
@@ -155,8 +158,8 @@ CLAIMED["C14"] = dict(
 CLAIMED["C17"] = dict(
     category="model_checking",
     text="Bounded, framing only. The per-message framing block of Response::send (Content::Stream branch) is extracted VERBATIM from the real source on every run (lib/vf.py //@extract: the lines between "
-         "`while let Some(chunk) = stream.next().await {` and `conn.write_all(&chunk).await`) and run on 9 enumerated concrete message sequences (empty message, single line, embedded LF, two messages, empty "
-         "then non-empty, field-like content `data: x`, embedded CR, CRLF, `x CR event: y`): the frames followed by `0 CRLF CRLF` are a valid chunked body (reference reader from RFC 9112 7.1) whose content, "
+         "`while let Some(chunk) = stream.next().await {` and `conn.write_all(&chunk).await`) and run on 12 enumerated concrete message sequences (empty message, single line, embedded LF, two messages, empty "
+         "then non-empty, field-like content `data: x`, embedded CR, CRLF, `x CR event: y`, and messages of 7, 8 and 9 bytes whose event sizes 0xf / 0x10 / 0x11 straddle the first chunk-size digit boundary): the frames followed by `0 CRLF CRLF` are a valid chunked body (reference reader from RFC 9112 7.1) whose content, "
          "read by an event-stream interpreter written from the WHATWG algorithm, is exactly the produced messages in order with CRLF/CR normalised to LF: none lost, merged, split or duplicated, no event/id/retry "
          "field, no comment or unknown-field line, nothing left undispatched.",
     design_ref="DESIGN.md §9.1, §9.4",
@@ -172,10 +175,11 @@ CLAIMED["C10"] = dict(
          "FileDeserializer: for a text field followed by 1..4 files under one name (1-byte symbolic filenames and contents) the files are grouped under that name and reach the target in SUBMISSION order, each with "
          "its own filename, media type and byte-exact content, nothing beyond them, the text field stays text; Option<File> is None for an empty file input, Some(the file) for exactly one, an error for several; a "
          "single File is that file for exactly one and an error otherwise (never undefined behaviour, never one of several); a file part into a text target and a text field into a file target are errors. The parser "
-         "itself only on decided templates: a malformed body without CRLF before the delimiter is refused, one empty text field, one empty file.",
+         "itself on decided templates and enumerated concrete bodies: a malformed body without CRLF before the delimiter is refused, one empty text field, one empty file, a file whose content is one of 10 concrete "
+         "byte strings (empty, ending in CR, CR, CRLF, containing CRLF or dashes, LF, CR CR) followed by a text field (both parts found, content byte-exact), and a body with a text field and three files (parts in submission order).",
     design_ref="DESIGN.md §9.2, §9.3",
-    note="NOT under a discharged contract: Multipart::parse with symbolic content bytes or several parts (1-3 symbolic content bytes: timeout / out of memory; a concrete three-file body: thorough tier), so that `parts` "
-         "are in submission order with byte-exact contents is decided only for the templates; optional part headers; the derived field dispatch of the target struct (from_bytes::<T>). core::str::from_utf8 and "
+    note="NOT under a discharged contract: Multipart::parse with symbolic content bytes or several parts (1-3 symbolic content bytes: timeout / out of memory; ), so that `parts` "
+         "are in submission order with byte-exact contents is decided only for the enumerated concrete bodies; optional part headers; the derived field dispatch of the target struct (from_bytes::<T>). core::str::from_utf8 and "
          "core::fmt::write (error texts) are stubbed. A genuine defect found by these obligations was repaired (fix: 1d0b724, unwrap_unchecked on an empty file list; earlier 78610a4).",
     technique="Kani harness contracts on the decoded-parts layer (real Multipart::next / SeqAccess / MapAccess code) over enumerated part lists with symbolic contents; parser on concrete templates",
 )
